@@ -1,1 +1,204 @@
-/-! C08 — property theorems (stub; no obligations yet) -/
+import Ypv.Lemmas.Parser
+import Ypv.Model.Render
+/-!
+# C08 — path text and parsed segments round-trip in both notations
+
+`write` (Spec/Write.lean) is the independent writer, `wfSegs` the expressible segment lists,
+`parseWith fslash true` the model of `YAMLPath(text).escaped` with the separator given,
+`parse true` the same with the separator inferred from the text.
+-/
+namespace Ypv.C08
+open Ypv
+
+/-- stage 1: KEY, INDEX, slice, ANCHOR, MATCH_ALL, TRAVERSE -/
+def isBasic : Seg → Bool
+  | (.key, .str _) | (.matchAll, .none) | (.traverse, .none) | (.index, .int _)
+  | (.index, .str _) | (.anchor, .str _) => true
+  | _ => false
+
+theorem simOK_basic {sep : Char} (hsep : sep = '.' ∨ sep = '/') :
+    SimOK sep (fun s => isBasic s = true) := by
+  intro seg hP ac st ss lead h hlead hwf
+  obtain ⟨t, a⟩ := seg
+  cases t <;> cases a <;> simp only [isBasic, Bool.false_eq_true] at hP
+  case key.str k => exact seg_key hsep h lead hlead k hwf
+  case matchAll.none => exact seg_matchAll hsep h lead hlead
+  case traverse.none => exact seg_traverse hsep h lead hlead
+  case index.int i => exact seg_int hsep h lead i
+  case index.str s => exact seg_slice hsep h lead s hwf
+  case anchor.str s => exact seg_anchor h lead s hwf
+
+/-- **parse_write, stage 1.**  Every well-formed list of KEY / INDEX / slice / ANCHOR / MATCH_ALL /
+TRAVERSE segments, of any length, written in dot (`fslash = false`) or forward-slash notation,
+parses back to exactly that list. -/
+theorem parse_write_basic (fslash : Bool) (segs : List Seg)
+    (hk : ∀ s ∈ segs, isBasic s = true) (hwf : wfSegs segs = true) :
+    parseWith fslash true (write fslash segs) = .ok segs :=
+  parse_write_of (simOK_basic (Or.inl rfl)) (simOK_basic (Or.inr rfl)) fslash segs hk hwf
+
+theorem normOriginal_idem (t : Str) : normOriginal (normOriginal t) = normOriginal t := by
+  unfold normOriginal
+  split <;> simp_all
+
+/-- with the separator inferred from the text the same holds, except for dot-notation texts that
+start with `/` (which are forward-slash paths by the notation's own definition) -/
+theorem parse_inferred (fslash : Bool) (segs : List Seg) (out : Except PErr (List Seg))
+    (hx : fslash = true ∨ dotExpressible segs = true)
+    (h : parseWith fslash true (write fslash segs) = out) :
+    parse true (write fslash segs) = out := by
+  unfold parse
+  have : inferFslash (write fslash segs) = fslash := by
+    unfold inferFslash normOriginal
+    cases fslash with
+    | true =>
+      have h0 : isPyWs '/' = false := by decide
+      simp [write, h0]
+    | false =>
+      rcases hx with hx | hx
+      · cases hx
+      · simp only [dotExpressible, ne_eq, decide_eq_true_eq] at hx
+        split
+        · simp
+        · simpa using hx
+  rw [this]; exact h
+
+theorem parse_write_basic_inferred (fslash : Bool) (segs : List Seg)
+    (hk : ∀ s ∈ segs, isBasic s = true) (hwf : wfSegs segs = true)
+    (hx : fslash = true ∨ dotExpressible segs = true) :
+    parse true (write fslash segs) = .ok segs :=
+  parse_inferred fslash segs _ hx (parse_write_basic fslash segs hk hwf)
+
+/-- **parse_write for further segment kinds (partial).**  FULL STATEMENT wanted:
+`wfSegs segs → parseWith fslash true (write fslash segs) = .ok segs` for lists that also hold
+SEARCH (all nine operators, inversion), KEYWORD_SEARCH and COLLECTOR segments.  What is proved:
+the composition for ANY set `P` of segment kinds — the only missing ingredient is the
+per-kind simulation lemma `SimOK sep P` ("from a between-segments state, the written form of one
+segment of kind P leads to a between-segments state with that segment appended") for those three
+kinds; for stage 1 it is `simOK_basic`.  The check covers the three kinds by the exhaustive/random
+differential run only. -/
+theorem parse_write_search_keyword_collector_partial (P : Seg → Prop)
+    (hdot : SimOK '.' P) (hslash : SimOK '/' P) (fslash : Bool) (segs : List Seg)
+    (hk : ∀ s ∈ segs, P s) (hwf : wfSegs segs = true) :
+    parseWith fslash true (write fslash segs) = .ok segs :=
+  parse_write_of hdot hslash fslash segs hk hwf
+
+/-- **eq_iff_segments.**  The model of `YAMLPath.__eq__` (after `fixes/C08-3.patch`) answers
+`true` exactly when both texts parse and their segment lists are the same. -/
+theorem eq_iff_segments (a b : Str) :
+    eqModel a b = .ok true ↔ ∃ s, parse true a = .ok s ∧ parse true b = .ok s := by
+  have hp : ∀ t, parse true (normOriginal t) = parse true t := by
+    intro t
+    simp only [parse, parseWith, inferFslash, normOriginal_idem]
+    rfl
+  unfold eqModel
+  rw [hp a, hp b]
+  cases ha : parse true a <;> cases hb : parse true b <;> simp
+  exact eq_comm
+
+/-- …and on written paths: two well-formed lists, each written in either notation, compare equal
+iff they are the same list (stated for the stage-1 kinds, for which `parse_write` is proved). -/
+theorem eq_written (f1 f2 : Bool) (s1 s2 : List Seg)
+    (h1 : ∀ s ∈ s1, isBasic s = true) (h2 : ∀ s ∈ s2, isBasic s = true)
+    (w1 : wfSegs s1 = true) (w2 : wfSegs s2 = true)
+    (x1 : f1 = true ∨ dotExpressible s1 = true) (x2 : f2 = true ∨ dotExpressible s2 = true) :
+    eqModel (write f1 s1) (write f2 s2) = .ok true ↔ s1 = s2 := by
+  rw [eq_iff_segments, parse_write_basic_inferred f1 s1 h1 w1 x1,
+    parse_write_basic_inferred f2 s2 h2 w2 x2]
+  constructor
+  · rintro ⟨s, ha, hb⟩
+    cases ha; cases hb; rfl
+  · rintro rfl; exact ⟨s1, rfl, rfl⟩
+
+theorem endsWith_append (a b : Str) : endsWith (a ++ b) b = true := by
+  simp [endsWith]
+
+/-- what `pop()` returns and the text it leaves -/
+def popView (p : PathObj) : Except PErr (Seg × Str) := (p.pop).map (fun x => (x.1, x.2.original))
+
+/-- **append_pop (partial).**  FULL STATEMENT wanted: for a written well-formed path `t` and the
+canonical text `seg` of one more segment, `YAMLPath(t).append(seg)` followed by `pop()` returns that
+segment and leaves the text `t`.  Proved here: `pop()` on the lengthened text `o1 = t ++ sep :: seg`
+returns the last (unescaped) segment `last` and restores exactly `t` WHENEVER `seg` is the
+library's own rendering of `last` (hypothesis `hr`; this is how the check builds `seg`).
+Missing: the strip=false twins of the simulation lemmas, which would discharge `hu`, `hl`, `hr` for
+canonical texts.  `append_text` is the other half: what `append` does to the text. -/
+theorem append_pop_partial (t seg : Str) (o1 : Str) (hn : normOriginal o1 = o1) (hnt : normOriginal t = t)
+    (ho : o1 = t ++ (inferSep o1).char :: seg)
+    (u : List Seg) (last : Seg)
+    (hu : parseWith (inferSep o1).isFslash false o1 = .ok u) (hl : u.getLast? = some last)
+    (hr : render (inferSep o1).isFslash [last] =
+      (if inferSep o1 = .fslash then (inferSep o1).char :: seg else seg)) :
+    popView (PathObj.new o1) = .ok (last, t) := by
+  have hune : u ≠ [] := by rintro rfl; simp at hl
+  have hauto : inferSep o1 ≠ .auto := by
+    cases h : o1 with
+    | nil => rw [h] at ho; simp at ho
+    | cons c r => simp [inferSep]; split <;> simp
+  cases hs : inferSep o1 with
+  | auto => exact absurd hs hauto
+  | dot =>
+    rw [hs] at hr hu ho
+    simp only [SepOpt.char] at ho
+    simp only [SepOpt.isFslash] at hr hu
+    simp at hr hu
+    have he : endsWith o1 ('.' :: seg) = true := by rw [ho]; exact endsWith_append t ('.' :: seg)
+    have hlen : o1.length - (seg.length + 1) = t.length := by rw [ho]; simp
+    have htk : o1.take t.length = t := by rw [ho]; simp
+    simp only [popView, PathObj.pop, PathObj.unescaped, PathObj.new, PathObj.setOriginal, PathObj.parseObj,
+      PathObj.getSep, hn, hs, SepOpt.isFslash]
+    simp [hu, hune, hl, hr, SepOpt.char, he, hlen, htk, hnt]
+    rfl
+  | fslash =>
+    rw [hs] at hr hu ho
+    simp only [SepOpt.char] at ho
+    simp only [SepOpt.isFslash] at hr hu
+    simp [SepOpt.char] at hr hu
+    have he : endsWith o1 ('/' :: seg) = true := by rw [ho]; exact endsWith_append t ('/' :: seg)
+    have hlen : o1.length - (seg.length + 1) = t.length := by rw [ho]; simp
+    have htk : o1.take t.length = t := by rw [ho]; simp
+    simp only [popView, PathObj.pop, PathObj.unescaped, PathObj.new, PathObj.setOriginal, PathObj.parseObj,
+      PathObj.getSep, hn, hs, SepOpt.isFslash]
+    simp [hu, hune, hl, hr, SepOpt.char, he, hlen, htk, hnt]
+    rfl
+
+/-- `append` on a non-empty path: the separator of the path's own notation and the segment text
+are added to the text (and every cache is dropped). -/
+theorem append_text (t seg : Str) (hnt : normOriginal t = t) (ht : t ≠ []) :
+    (PathObj.new t).append seg =
+      PathObj.new (t ++ (if inferSep t = .dot then '.' else '/') :: seg) := by
+  have hl : ¬ t.length < 1 := by
+    cases t with
+    | nil => exact absurd rfl ht
+    | cons c r => simp
+  simp [PathObj.append, PathObj.new, PathObj.setOriginal, PathObj.getSep, hnt, hl]
+
+/-! Witnesses: the hypotheses are met by concrete, non-trivial values. -/
+
+def demo : List Seg :=
+  [(.key, .str "a.b/c d".toList), (.index, .int (-12)), (.anchor, .str "x y".toList),
+   (.matchAll, .none), (.index, .str "1:-1".toList), (.traverse, .none), (.key, .str "\\'[".toList)]
+
+example : (∀ s ∈ demo, isBasic s = true) ∧ wfSegs demo = true ∧ dotExpressible demo = true := by
+  decide +kernel
+example : write false demo = "a\\.b/c\\ d[-12][&x\\ y].*[1:-1].**.\\\\\\'\\[".toList := by decide +kernel
+example : parse true (write false demo) = .ok demo ∧ parse true (write true demo) = .ok demo := by
+  decide +kernel
+/-- all kinds (stage 2 and 3 included) on a concrete list: the model parses the written text back -/
+def demoAll : List Seg :=
+  [(.key, .str "k".toList), (.search, .search true .regex ".".toList "x/y".toList),
+   (.search, .search false .ge "a b".toList "1 ]".toList),
+   (.keywordSearch, .keyword true .hasChild "a.b)".toList),
+   (.collector, .collector "a.b".toList .none), (.collector, .collector "(c)".toList .sub)]
+example : wfSegs demoAll = true ∧ parse true (write false demoAll) = .ok demoAll ∧
+    parse true (write true demoAll) = .ok demoAll := by decide +kernel
+/-- a dot-notation text starting with `/` is read as a forward-slash path -/
+example : dotExpressible [(.key, .str "/a".toList)] = false ∧
+    parse true (write false [(.key, .str "/a".toList)]) = .ok [(.key, .str "a".toList)] := by
+  decide +kernel
+/-- append then pop on a concrete path (model): the segment comes back and the text is restored -/
+example : popView ((PathObj.new "a.b[1]".toList).append "c\\.d".toList)
+    = .ok ((.key, .str "c\\.d".toList), "a.b[1]".toList) := by decide +kernel
+/-- `eqModel` on the suspicion's input (after the repair): both have the single key `a.b` -/
+example : eqModel "a\\.b".toList "/a.b".toList = .ok true := by decide +kernel
+
+end Ypv.C08
